@@ -598,6 +598,14 @@ class Program:
         import anchors
         self.renamed_fields = anchors.canonicalise(j)
         self.rebound_fns = anchors.rebind_functions(j)
+        import inline
+        try:
+            with open(anchors.SIG_TABLE) as sf:
+                known = set(json.load(sf))
+        except OSError:
+            known = None
+        # newly introduced thin helpers are inlined into their callers (never anything on the tree the rules were written for)
+        self.inlined = inline.inline_new_thin(j, known) if known else []
         self.j = j
         self.nonce = j.get('nonce')
         self.crate = j.get('crate')
@@ -2075,6 +2083,35 @@ def decision_leaves(prog, f, depth=4, out=None, sites=None, _seen=None):
     return out
 
 
+
+
+def loop_depth(f, bb):
+    """number of natural loops of `f` (back edge u -> h with h dominating u) whose body contains `bb`"""
+    cache = getattr(f, '_loops', None)
+    if cache is None:
+        cache = []
+        reach = f.reachable()
+        preds = {}
+        for i in reach:
+            for j in f.succ[i]:
+                preds.setdefault(j, set()).add(i)
+        heads = {}
+        for u in reach:
+            for h in f.succ[u]:
+                if h in reach and f.dominates(h, u):
+                    heads.setdefault(h, set()).add(u)
+        for h, us in heads.items():
+            body = {h}
+            stack = [u for u in us]
+            while stack:
+                x = stack.pop()
+                if x in body:
+                    continue
+                body.add(x)
+                stack.extend(preds.get(x, ()))
+            cache.append((h, body))
+        f._loops = cache
+    return sum(1 for (h, body) in cache if bb in body)
 
 
 def access_root(fn, local, hops=8):
